@@ -1349,6 +1349,10 @@ class Frame:
                 if e.attr == "dtype":
                     return numpy.dtype(base.ty)
                 raise Unsupported(f"attribute {e.attr} of symbolic scalar")
+            if type(base) in (float, int, bool) and not hasattr(base, e.attr):
+                # a value that is a numpy scalar in the real run (result of numpy arithmetic) and a plain python
+                # number here because the path made it concrete
+                base = numpy.float64(base) if type(base) is float else (numpy.bool_(base) if type(base) is bool else numpy.int64(base))
             return getattr(base, e.attr)
         if isinstance(e, ast.Call):
             return self.call(e, env)
